@@ -481,6 +481,61 @@ func c12Syscalls(c *enumx.Ctx) {
 			}
 		}
 	}
+	// the companion fields of a SYSCALL record (a0..a3: small integers that select a sub-operation of multiplexer calls -
+	// socketcall, ipc, futex, fcntl, prctl, ptrace ... - and pointer-like values): the name is the table's name for
+	// (arch, number), whatever the arguments are
+	argVals := []string{"ffffffff", "7ffc00001000", "ffffffffffffff9c", "80000", "100"}
+	for v := 0; v <= 0x28; v++ {
+		argVals = append(argVals, strconv.FormatInt(int64(v), 16))
+	}
+	for _, a := range arches {
+		aname := auparse.AuditArchNames[a]
+		table := auparse.AuditSyscalls[aname]
+		var ns []int
+		for n := range table {
+			ns = append(ns, n)
+		}
+		sort.Ints(ns)
+		for _, n := range ns {
+			if !c.Mine() {
+				continue
+			}
+			for ai := 0; ai < 4; ai++ {
+				for _, v := range argVals {
+					if ai >= 2 && len(v) > 2 {
+						continue
+					}
+					args := []string{"3", "7ffe0000", "10", "0"}
+					args[ai] = v
+					raw := hdr + fmt.Sprintf("arch=%x syscall=%d success=yes exit=0 a0=%s a1=%s a2=%s a3=%s items=0 ppid=1 pid=2 exe=\"/x\"", uint32(a), n, args[0], args[1], args[2], args[3])
+					c.Begin(func() string { return fmt.Sprintf("Parse(1300, %q)", raw) })
+					c.Try("C12", func() {
+						m, err := auparse.Parse(auparse.AUDIT_SYSCALL, raw)
+						if err != nil {
+							c.Report("C12 parse-error", err.Error(), nil)
+							return
+						}
+						d, err := m.Data()
+						if err != nil {
+							c.Report("C12 syscall-data-error", fmt.Sprintf("Data() failed on %q: %v", raw, err), nil)
+							return
+						}
+						if d["arch"] != aname || d["syscall"] != table[n] {
+							c.Report("C12 arch-syscall-name", fmt.Sprintf("%q: arch=%q syscall=%q, the published tables say arch=%q syscall=%q", raw, d["arch"], d["syscall"], aname, table[n]), nil)
+							return
+						}
+						for i, k := range []string{"a0", "a1", "a2", "a3"} {
+							if d[k] != args[i] {
+								c.Report("C12 syscall-argument-changed", fmt.Sprintf("%q: %s=%q, the record says %q", raw, k, d[k], args[i]), nil)
+								return
+							}
+						}
+						c.Nontrivial()
+					})
+				}
+			}
+		}
+	}
 	// independent anchors for arch codes
 	if c.Shard == 0 {
 		au := refdata.Audit()
